@@ -74,13 +74,15 @@ var scenarios = []*scenario{
 	},
 	{
 		// proposal A voter-agreed at 14 (imprest withdrawable), B registered at 13:
-		// free blocks: tracking, withdrawal requests and payment, council review of B.
+		// free blocks: tracking (each kind, repeatedly on the same stage: reject, reject again,
+		// progress after reject, terminate / finalise after reject ...), withdrawal requests and
+		// payment, council review of B.
 		name: "proposal-execution",
 		warm: []string{"reg:c1+reg:c2+reg:c3", "fund", "e4", "vote:v1:a", "e", "approp", "prop:A:c1", "rev2:A:a", "e",
 			"prop:B:c2", "e"},
-		alphabet: []string{"e", "wd:A", "realwd", "trk:A:progress", "trk:A:finalized", "trk:A:terminated", "trk:A:changeowner",
-			"rev2:B:a", "imp:vi:c1:big"},
-		extra: []string{"e2", "trk:A:common", "trk:A:rejected", "rev:c1:B:r", "rej:vr:B:big", "close:E:A:c1"},
+		alphabet: []string{"e", "wd:A", "realwd", "trk:A:progress", "trk:A:rejected", "trk:A:rejected:2", "trk:A:finalized",
+			"trk:A:terminated", "trk:A:changeowner", "rev2:B:a", "imp:vi:c1:big"},
+		extra: []string{"e2", "trk:A:common", "trk:A:progress:2", "rev:c1:B:r", "rej:vr:B:big", "close:E:A:c1"},
 	},
 	{
 		// A voter-agreed; three special proposals already approved by the council and in public
